@@ -20,6 +20,30 @@ pub struct Uow {
     /// interior-mutable field: handle clones keep adding to it after the owner is gone; the entry
     /// must carry its value at the instant it is closed and appended
     c: metrique::Counter,
+    /// closes to the harness step at which close() ran: "closed ... at the moment" is about the
+    /// close as much as about the append (timers, timestamps-on-close and slots read their value
+    /// then)
+    t: ClosedAt,
+}
+
+thread_local! {
+    static STEP: std::cell::Cell<u64> = const { std::cell::Cell::new(0) };
+}
+/// the value of a field of this type is the step (set by the driving thread before every
+/// operation) during which the entry was closed
+#[derive(Default)]
+pub struct ClosedAt;
+impl metrique::CloseValue for ClosedAt {
+    type Closed = u64;
+    fn close(self) -> u64 {
+        STEP.with(|s| s.get())
+    }
+}
+impl metrique::CloseValue for &ClosedAt {
+    type Closed = u64;
+    fn close(self) -> u64 {
+        STEP.with(|s| s.get())
+    }
 }
 
 /// what the sink saw: the entry's fields and the started-flags snapshot at the append instant
@@ -104,12 +128,22 @@ pub enum Op {
     /// gone: the SlotGuard is a plain holder of the guard, the entry waits for it like for any
     /// other flush guard
     NewFlushGuardInDetachedSlotGuard,
+    /// the documented way to park a flush guard: `Slot::open(OnParentDrop::Wait(guard))`, the
+    /// slot itself kept next to its guard
+    NewFlushGuardInWaitSlotGuard,
+    /// the same through `LazySlot::open(value, OnParentDrop::Wait(guard))`
+    NewFlushGuardInLazySlotGuard,
+    /// the i-th holder gets a fresh flush guard of the entry and releases the one it held
+    /// (`delay_flush` again on a slot guard; create-then-drop for a plain guard)
+    ReplaceHeldGuard(u8),
 }
 
-/// what keeps a flush guard alive
+/// what keeps a flush guard alive (fields drop in order: the slot guard before its slot)
 pub enum Holder {
     Plain(FlushGuard),
     InSlotGuard(SlotGuard<HolderChild>),
+    WaitSlot(SlotGuard<HolderChild>, Slot<HolderChild>),
+    LazySlot(SlotGuard<HolderChild>, metrique::slot::LazySlot<HolderChild>),
 }
 
 #[metrics(subfield)]
@@ -143,7 +177,16 @@ impl Model {
     }
     pub fn enabled(&self, op: Op) -> bool {
         match op {
-            Op::NewFlushGuard | Op::NewFlushGuardInDetachedSlotGuard | Op::NewForceGuard | Op::Mutate(_) | Op::IntoHandle | Op::DropOwner | Op::EmitOwner => self.owner_alive,
+            Op::NewFlushGuard
+            | Op::NewFlushGuardInDetachedSlotGuard
+            | Op::NewFlushGuardInWaitSlotGuard
+            | Op::NewFlushGuardInLazySlotGuard
+            | Op::NewForceGuard
+            | Op::Mutate(_)
+            | Op::IntoHandle
+            | Op::DropOwner
+            | Op::EmitOwner => self.owner_alive,
+            Op::ReplaceHeldGuard(i) => self.owner_alive && (i as usize) < self.flush_guards.len(),
             Op::DropFlushGuard(i) => (i as usize) < self.flush_guards.len(),
             Op::DropForceGuard(i) => (i as usize) < self.force_guards,
             Op::CloneHandle => self.handles > 0,
@@ -153,7 +196,10 @@ impl Model {
     }
     pub fn apply(&mut self, op: Op) {
         match op {
-            Op::NewFlushGuard | Op::NewFlushGuardInDetachedSlotGuard => self.flush_guards.push(!self.force_dropped),
+            Op::NewFlushGuard | Op::NewFlushGuardInDetachedSlotGuard | Op::NewFlushGuardInWaitSlotGuard | Op::NewFlushGuardInLazySlotGuard => {
+                self.flush_guards.push(!self.force_dropped)
+            }
+            Op::ReplaceHeldGuard(i) => self.flush_guards[i as usize] = !self.force_dropped,
             Op::NewForceGuard => self.force_guards += 1,
             Op::DropFlushGuard(i) => {
                 self.flush_guards.remove(i as usize);
@@ -188,7 +234,7 @@ pub struct Real {
 impl Real {
     pub fn new() -> Self {
         let sink = CountSink::new();
-        let owner = Uow { a: 0, b: 0, c: metrique::Counter::new(0) }.append_on_drop(sink.clone());
+        let owner = Uow { a: 0, b: 0, c: metrique::Counter::new(0), t: ClosedAt }.append_on_drop(sink.clone());
         Real {
             sink,
             owner: Some(owner),
@@ -206,6 +252,28 @@ impl Real {
                 drop(slot); // the receiving side is gone: the guard is detached
                 g.delay_flush(self.owner.as_ref().unwrap().flush_guard());
                 self.flush_guards.push(Holder::InSlotGuard(g));
+            }
+            Op::NewFlushGuardInWaitSlotGuard => {
+                let mut slot: Slot<HolderChild> = Slot::default();
+                let g = slot.open(OnParentDrop::Wait(self.owner.as_ref().unwrap().flush_guard())).expect("fresh slot opens");
+                self.flush_guards.push(Holder::WaitSlot(g, slot));
+            }
+            Op::NewFlushGuardInLazySlotGuard => {
+                let mut slot: metrique::slot::LazySlot<HolderChild> = Default::default();
+                let g = slot
+                    .open(HolderChild::default(), OnParentDrop::Wait(self.owner.as_ref().unwrap().flush_guard()))
+                    .expect("fresh lazy slot opens");
+                self.flush_guards.push(Holder::LazySlot(g, slot));
+            }
+            Op::ReplaceHeldGuard(i) => {
+                let fresh = self.owner.as_ref().unwrap().flush_guard();
+                match &mut self.flush_guards[i as usize] {
+                    h @ Holder::Plain(_) => {
+                        let old = std::mem::replace(h, Holder::Plain(fresh));
+                        drop(old);
+                    }
+                    Holder::InSlotGuard(g) | Holder::WaitSlot(g, _) | Holder::LazySlot(g, _) => g.delay_flush(fresh),
+                }
             }
             Op::NewForceGuard => self.force_guards.push(self.owner.as_ref().unwrap().force_flush_guard()),
             Op::DropFlushGuard(i) => drop(self.flush_guards.remove(i as usize)),
@@ -244,13 +312,20 @@ pub fn run_sequence(ops: &[Op]) -> Result<(Model, Real, Classes), Fail> {
         // classification of interesting situations
         match op {
             Op::DropForceGuard(_) if m.flush_guards.iter().any(|h| *h) => classes.push("force-drop-while-flush-guards-alive"),
-            Op::NewFlushGuard | Op::NewFlushGuardInDetachedSlotGuard if m.force_dropped => classes.push("guard-created-after-force-drop"),
+            Op::NewFlushGuard | Op::NewFlushGuardInDetachedSlotGuard | Op::NewFlushGuardInWaitSlotGuard | Op::NewFlushGuardInLazySlotGuard
+                if m.force_dropped =>
+            {
+                classes.push("guard-created-after-force-drop")
+            }
             Op::NewFlushGuardInDetachedSlotGuard => classes.push("flush-guard-held-by-a-detached-slot-guard"),
+            Op::NewFlushGuardInWaitSlotGuard | Op::NewFlushGuardInLazySlotGuard => classes.push("flush-guard-parked-by-slot-open-wait"),
+            Op::ReplaceHeldGuard(_) => classes.push("held-guard-replaced"),
             Op::DropOwner | Op::IntoHandle | Op::EmitOwner if !m.flush_guards.is_empty() => classes.push("guard-outlives-owner"),
             Op::AddViaHandle(..) => classes.push("mutation-through-handle-after-owner-gone"),
             _ => {}
         }
         m.apply(*op);
+        STEP.with(|s| s.set(1000 + i as u64));
         let res = no_panic("uow-op", || r.apply(*op));
         res?;
         let want = m.emitted() as usize;
@@ -274,6 +349,13 @@ pub fn run_sequence(ops: &[Op]) -> Result<(Model, Real, Classes), Fail> {
             let a = r.sink.appended.lock().unwrap()[0].clone();
             let mut f = a.fields.clone();
             f.sort();
+            let closed_at = f.iter().position(|x| x.0 == "t").map(|k| f.remove(k).1);
+            vensure!(
+                closed_at == Some(1000 + i as u64),
+                "uow:closed-at-another-moment-than-appended",
+                "the entry was appended during op {i} ({op:?}) but its fields were closed during step {:?} (1000 + op index) of {ops:?}",
+                closed_at
+            );
             vensure!(
                 f == vec![("a".to_string(), m.a), ("b".to_string(), m.b), ("c".to_string(), m.c)],
                 "uow:content-does-not-reflect-mutations",
@@ -413,6 +495,7 @@ pub fn check_seq(case: &SeqCase) -> CaseResult {
     );
     let mut f = appended[0].fields.clone();
     f.sort();
+    f.retain(|x| x.0 != "t");
     vensure!(
         f == vec![("a".to_string(), m.a), ("b".to_string(), m.b), ("c".to_string(), m.c)],
         "uow:content-does-not-reflect-mutations",
@@ -562,6 +645,9 @@ pub fn arb_op() -> impl Strategy<Value = Op> {
     prop_oneof![
         3 => Just(Op::NewFlushGuard),
         1 => Just(Op::NewFlushGuardInDetachedSlotGuard),
+        1 => Just(Op::NewFlushGuardInWaitSlotGuard),
+        1 => Just(Op::NewFlushGuardInLazySlotGuard),
+        1 => (0u8..4).prop_map(Op::ReplaceHeldGuard),
         2 => Just(Op::NewForceGuard),
         3 => (0u8..4).prop_map(Op::DropFlushGuard),
         1 => (0u8..3).prop_map(Op::DropForceGuard),
@@ -586,11 +672,11 @@ pub fn run(ctx: &mut Ctx) {
     ctx.explore(
         SubCfg::new(
             "c06-random",
-            "random op sequences up to length 60 (unbounded numbers of guards/handles), single-threaded, model compared after every op; the leftovers are dropped in a generated order, in 20% of the cases while the dropping thread unwinds from a panic. Non-trivial as in the exhaustive sub-check",
+            "random op sequences up to length 60 (unbounded numbers of guards/handles), single-threaded, model compared after every op; flush guards are held plainly, by a SlotGuard whose slot is gone (delay_flush), by Slot::open(Wait(..)) / LazySlot::open(.., Wait(..)) guards, and holders get their guard replaced; the leftovers are dropped in a generated order, in 20% of the cases while the dropping thread unwinds from a panic. Non-trivial as in the exhaustive sub-check",
             if q { 30_000 } else { 1_000_000 },
         )
         .threads(ctx.tier.pick(8, 16))
-        .mandatory(&["force-drop-while-flush-guards-alive", "guard-created-after-force-drop", "guard-outlives-owner", "final-drops-while-unwinding", "mutation-through-handle-after-owner-gone", "flush-guard-held-by-a-detached-slot-guard"]),
+        .mandatory(&["force-drop-while-flush-guards-alive", "guard-created-after-force-drop", "guard-outlives-owner", "final-drops-while-unwinding", "mutation-through-handle-after-owner-gone", "flush-guard-held-by-a-detached-slot-guard", "flush-guard-parked-by-slot-open-wait", "held-guard-replaced"]),
         || {
             (prop::collection::vec(arb_op(), 0..60), prop::collection::vec(any::<u8>(), 0..12), prop::bool::weighted(0.2)).prop_map(|(ops, order, unwinding)| SeqCase {
                 ops,
